@@ -42,6 +42,10 @@ func (p Path) Matches(base string) bool {
 	// (slightly lossy if the base path requires multiple
 	// consecutive forward slashes, since those will be merged)
 	pHasTrailingSlash := strings.HasSuffix(string(p), "/")
+	if strings.HasSuffix(string(p), "/.") || strings.HasSuffix(string(p), "/..") {
+		// a final dot segment names a directory (RFC 3986, 5.2.4): /a/b/.. is /a/, not /a
+		pHasTrailingSlash = true
+	}
 	baseHasTrailingSlash := strings.HasSuffix(base, "/")
 	p = Path(path.Clean(string(p)))
 	base = path.Clean(base)
